@@ -402,6 +402,30 @@ func bsTraceOne(id int, seed int64, orphan bool) bsTrace {
 		tr.Note = "the synchronisation thread did not finish within 8 s"
 	}
 	w.log(bsEvent{Ev: "idle", Set: w.processedSet()})
+
+	// a reorganisation after the rounds have completed: the blocks of the new best chain above the fork
+	// point are still to be processed, from the lowest one
+	if n := len(w.chain) - 1; tr.Note == "" && n >= 1 && rng.Intn(3) == 0 {
+		forkAt := 1 + rng.Intn(n)
+		w.log(bsEvent{Ev: "reorg", H: forkAt})
+		prev := w.chain[forkAt-1].hash
+		newChain := append([]*bsBlock{}, w.chain[:forkAt]...)
+		for h := forkAt; h <= n; h++ {
+			b := w.newBlock(h, prev, true)
+			if err := w.repo.ProcessHeader(w.ctx, b.header); err != nil {
+				tr.Note = "harness: " + err.Error()
+			}
+			newChain = append(newChain, b)
+			prev = b.hash
+		}
+		w.chain = newChain
+		trigger()
+		if !w.waitIdle(8 * time.Second) {
+			tr.Note = "the synchronisation thread did not finish within 8 s of the late reorganisation"
+		}
+		w.log(bsEvent{Ev: "idle", Set: w.processedSet()})
+	}
+
 	w.mu.Lock()
 	tr.Events = append([]bsEvent{}, w.events...)
 	w.mu.Unlock()
